@@ -9,6 +9,7 @@
 From Coq Require Import ZArith List Bool.
 From Coq.Strings Require Import Byte.
 From TS Require Import Bytes State Prog Ops Interp StateLemmas AuthSpec StrKeys Limits Discipline.
+From TS Require ReturnSemantics.
 Import ListNotations.
 Local Open Scope nat_scope.
 
@@ -121,3 +122,36 @@ Print Assumptions C01_auth_discipline.
 Print Assumptions C01_verdict_false_cases.
 Print Assumptions C01_later_script_start.
 Print Assumptions C01_never_raises.
+
+(* ---- what OP_RETURN ends, exactly (proofs/ReturnSemantics.v; for every oracle, configuration and runner, hence at every nesting level).
+   RETURN sets the control flag and moves the pointer of its own tape to the end.  IF / IF_ELSE / TRY_EXCEPT hand a RETURN of their body
+   on: the enclosing tape ends too (pointer at its end, flag set) -- also when the RETURN happened in the EXCEPT body of a TRY whose body
+   raised (a seeded change that dropped exactly this hand-over was at first only visible as a disagreement with the model).  CALL, LOOP
+   and EVAL (without eval_return) absorb it: flag cleared, execution goes on after the instruction.  Whole-script corollaries: whatever
+   follows `true if { return }` or `try { false verify } except { return }` is never executed.  Closed statements printed by Check. *)
+Definition C01_return_exact := @ReturnSemantics.op_return_exact.
+Definition C01_if_hands_return_on := @ReturnSemantics.op_if_exact.
+Definition C01_if_else_hands_return_on := @ReturnSemantics.op_if_else_exact.
+Definition C01_try_except_hands_return_on := @ReturnSemantics.op_try_except_exact.
+Definition C01_return_in_except_body_ends_the_script := @ReturnSemantics.op_try_except_returned.
+Definition C01_call_absorbs_return := @ReturnSemantics.op_call_exact.
+Definition C01_loop_absorbs_return := @ReturnSemantics.op_loop_absorbs.
+Definition C01_eval_absorbs_or_hands_on := @ReturnSemantics.eval_body_exact.
+Definition C01_nothing_after_if_return_runs := @ReturnSemantics.script_if_return_any_post.
+Definition C01_nothing_after_try_except_return_runs := @ReturnSemantics.script_try_except_return_any_post.
+Check C01_return_exact.
+Check C01_try_except_hands_return_on.
+Check C01_return_in_except_body_ends_the_script.
+Check C01_nothing_after_try_except_return_runs.
+Print ReturnSemantics.hand_on.
+Print ReturnSemantics.after_body.
+Print Assumptions C01_return_exact.
+Print Assumptions C01_if_hands_return_on.
+Print Assumptions C01_if_else_hands_return_on.
+Print Assumptions C01_try_except_hands_return_on.
+Print Assumptions C01_return_in_except_body_ends_the_script.
+Print Assumptions C01_call_absorbs_return.
+Print Assumptions C01_loop_absorbs_return.
+Print Assumptions C01_eval_absorbs_or_hands_on.
+Print Assumptions C01_nothing_after_if_return_runs.
+Print Assumptions C01_nothing_after_try_except_return_runs.
